@@ -300,9 +300,9 @@ class PteraTransformer(NodeTransformer):
     def _set(self, name):
         return ast.Name(id=self.lib[name][0], ctx=ast.Store())
 
-    def _interact(self, *args):
+    def _interact(self, *args, force=False):
         varname, key, ann, value, overridable = args
-        if not self.should_instrument(varname, ann):
+        if not force and not self.should_instrument(varname, ann):
             return value if isinstance(value, ast.AST) else ast.Constant(value)
 
         args = [
@@ -443,7 +443,10 @@ class PteraTransformer(NodeTransformer):
         if value_args is None:
             new_value = value
         else:
-            new_value = self._interact(*value_args)
+            # A declaration without a value (x: int) must be given a value
+            # from outside or fail loudly: it always interacts, otherwise the
+            # ABSENT marker itself would be stored in the variable
+            new_value = self._interact(*value_args, force=value is None)
         if isinstance(target, str):
             assert not expression
             return [ast.Expr(new_value)]
@@ -537,18 +540,48 @@ class PteraTransformer(NodeTransformer):
         new_body = []
 
         for external in sorted(self.external):
-            new_body.extend(
-                self.make_interaction(
-                    target=ast.Name(id=external, ctx=ast.Store()),
-                    ann=None,
-                    value=ast.Subscript(
-                        value=ast.Name(id="__ptera_globals", ctx=ast.Load()),
-                        slice=ast.Index(value=ast.Constant(external)),
-                        ctx=ast.Load(),
-                    ),
-                    orig=node,
-                )
+            fetch = self.make_interaction(
+                target=ast.Name(id=external, ctx=ast.Store()),
+                ann=None,
+                value=ast.Subscript(
+                    value=ast.Name(id="__ptera_globals", ctx=ast.Load()),
+                    slice=ast.Index(value=ast.Constant(external)),
+                    ctx=ast.Load(),
+                ),
+                orig=node,
             )
+            if self.should_instrument(external, None):
+                # A global that is not set may be supplied from outside. If it
+                # is not, the name is simply left unbound: using it raises
+                # NameError at that point, as in the original function
+                new_body.append(
+                    ast.Try(
+                        body=fetch,
+                        handlers=[
+                            ast.ExceptHandler(
+                                type=self._get("PteraNameError"),
+                                name=None,
+                                body=[ast.Pass()],
+                            )
+                        ],
+                        orelse=[],
+                        finalbody=[],
+                    )
+                )
+            else:
+                new_body.append(
+                    ast.If(
+                        test=ast.Compare(
+                            left=ast.Constant(external),
+                            ops=[ast.In()],
+                            comparators=[
+                                ast.Name(id="__ptera_globals", ctx=ast.Load())
+                            ],
+                        ),
+                        body=fetch,
+                        orelse=[],
+                    )
+                )
 
         for fv in sorted(self.free):
             new_body.extend(
@@ -1088,6 +1121,7 @@ def transform(fn, proceed, to_instrument=True, set_conformer=True):
             DictPile(glb, __builtins__, default=ABSENT),
         ),
         "ABSENT": ("__ptera_ABSENT", ABSENT),
+        "PteraNameError": ("__ptera_PteraNameError", PteraNameError),
         "Key": ("__ptera_Key", Key),
         "get_tags": ("__ptera_get_tags", get_tags),
         "suspend": ("__ptera_suspend", _suspend),
